@@ -1,9 +1,11 @@
 /-
 C13 (protocol part) — the run joins all workers and cannot get stuck, for EVERY number of workers and
 every interleaving of worker and collector steps.  Model: LdpcV/Model/BerProto.lean.
-Liveness ("eventually done") needs a fairness assumption on the OS scheduler and is not stated; what is
+Unconditional liveness ("eventually done") would need a fairness assumption on the OS scheduler while the collector
+is still collecting (workers may produce frames for ever if the error target is never reached); what is
 proved is deadlock-freedom (every reachable unfinished state can move), that the collector never waits
-for a worker that cannot exit, and the shape of the final state.
+for a worker that cannot exit, the shape of the final state, and BOUNDED TERMINATION once the terminate messages
+are out: from then on every schedule whatsoever ends within 2N+1 steps (no fairness needed).
 -/
 import LdpcV.Lemmas.ProtoLemmas
 namespace LdpcV.C13Proto
@@ -49,6 +51,38 @@ theorem error_reported (keep : Bool) (target n : Nat) (s : St) (hr : Reachable k
 theorem stops_at_target (keep : Bool) (target n : Nat) (ht : 1 ≤ target) (s : St) (hr : Reachable keep target n s) :
     s.errors ≤ target ∧ (s.phase = .collecting → s.errors < target) := by
   exact target_of_reachable ht hr
+
+/-- bounded termination after the stop decision: once the collector has sent the terminate messages, EVERY
+continuation of the run — any interleaving of the N workers and the collector — consists of at most 2N+1 steps
+(each worker exits at most once, each is joined once, one final step), the measure `mu` strictly decreasing -/
+theorem terminates_after_signal (keep : Bool) (target n k : Nat) (s s' : St) (hr : Reachable keep target n s)
+    (ht : s.termSent = true) (hs : Steps keep target k s s') : k ≤ 2 * n + 1 ∧ s'.termSent = true := by
+  have h := inv_of_reachable hr
+  obtain ⟨h1, _, h3⟩ := steps_bounded h ht hs
+  have h2 := mu_le h (by rw [← h.term]; exact ht)
+  exact ⟨by omega, h3⟩
+
+/-- … and such a run can only stop in the finished state: combined with `no_deadlock`, after the stop decision the
+repaired protocol reaches `done` within 2N+1 steps under every schedule -/
+theorem stuck_after_signal_is_done (target n k : Nat) (s s' : St) (hr : Reachable false target n s)
+    (hs : Steps false target k s s') (hstuck : ¬ ∃ s'', Step false target s' s'') : isDone s' = true := by
+  have hr' : Reachable false target n s' := by
+    clear hstuck
+    induction hs with
+    | zero s => exact hr
+    | succ hstep _ ih => exact ih (Reachable.step hr hstep)
+  cases hd : isDone s' with
+  | true => rfl
+  | false => exact absurd (no_deadlock target n s' hr' hd) hstuck
+
+/-- non-vacuity: with two workers, the state right after `signal` is reachable and has the terminate messages out -/
+example : ∃ s, Reachable false 1 2 s ∧ s.termSent = true := by
+  refine ⟨{ workers := [.running, .running], termSent := true, queue := [], errors := 1, sawError := false, phase := .joining 0 }, ?_, rfl⟩
+  have r0 : Reachable false 1 2 (init 2) := Reachable.init
+  have r1 := Reachable.step r0 (Step.workerSendsFrame (init 2) 0 (by decide) (by decide))
+  have r2 := Reachable.step r1 (Step.collectFrame _ [] true (by decide) (by decide))
+  have r3 := Reachable.step r2 (Step.signal _ (by decide))
+  simpa [init] using r3
 
 /-- the defect D7 in the model: when the collector keeps its own sender alive, the state in which every
 worker has panicked is reachable and stuck (for every N ≥ 1 and target ≥ 1) -/
